@@ -166,6 +166,27 @@ impl Acc {
     }
 }
 
+/// Run one history / case.  A panic raised by the *library* on the driver's own thread (a
+/// direct API call such as a database transaction) is a violation `<id>.X0`; a panic of the
+/// engine itself (model, driver) is a machinery failure, never a verdict.
+fn run_guarded(id: &str, what: &str, f: impl FnOnce() -> RunResult) -> RunResult {
+    match crate::kernel::guarded(f) {
+        Ok(r) => r,
+        Err(msg) => {
+            if msg.contains("/repo/") {
+                let loc = msg.rsplit(" @ ").next().unwrap_or("").trim_start_matches("/repo/").to_string();
+                let mut r = RunResult::default();
+                r.transcript.push(format!("panic in library code on the driver's thread: {msg}"));
+                r.violation = Some(Violation::new(&format!("{id}.X0"), format!("panic@{loc}"), format!("library code panicked when called directly by the driver: {msg}")));
+                r
+            } else {
+                eprintln!("MACHINERY-ERROR: the engine panicked in {what}: {msg}");
+                std::process::exit(2);
+            }
+        }
+    }
+}
+
 pub struct KnownFinding {
     pub property: String,
     pub clause: String,
@@ -216,7 +237,7 @@ pub struct Check {
     threads: usize,
 }
 
-fn greedy_minimise(scn: &dyn Scenario, path: &[usize], sig: &(String, String)) -> Vec<usize> {
+fn greedy_minimise(id: &str, scn: &dyn Scenario, path: &[usize], sig: &(String, String)) -> Vec<usize> {
     let mut cur = path.to_vec();
     loop {
         let mut improved = false;
@@ -224,7 +245,7 @@ fn greedy_minimise(scn: &dyn Scenario, path: &[usize], sig: &(String, String)) -
         while i < cur.len() {
             let mut cand = cur.clone();
             cand.remove(i);
-            let r = scn.run(&cand, false);
+            let r = run_guarded(id, "minimisation", || scn.run(&cand, false));
             if r.violation.as_ref().map(|v| v.sig()) == Some(sig.clone()) {
                 cur = cand;
                 improved = true;
@@ -327,6 +348,7 @@ impl Check {
                 let items = &items;
                 let total_acc = &total_acc;
                 let name = &name;
+                let id = &id;
                 s.spawn(move || {
                     let mut acc = Acc::default();
                     let mut counter: u64 = 0;
@@ -340,17 +362,11 @@ impl Check {
                         dfs(scn, n, depth, &mut path, &mut |p: &[usize]| {
                             *slots[w].lock().unwrap() = Some((p.to_vec(), Instant::now()));
                             // a panic of the *engine* (model, driver) is a machinery failure, never a verdict
-                            let r = match std::panic::catch_unwind(std::panic::AssertUnwindSafe(|| scn.run(p, false))) {
-                                Ok(r) => r,
-                                Err(_) => {
-                                    eprintln!("MACHINERY-ERROR: the engine panicked in scenario {} path {:?}", name, p);
-                                    std::process::exit(2);
-                                }
-                            };
+                            let r = run_guarded(id, &format!("scenario {} path {:?}", name, p), || scn.run(p, false));
                             *slots[w].lock().unwrap() = None;
                             counter += 1;
                             if counter % 64 == 0 {
-                                let r2 = scn.run(p, false);
+                                let r2 = run_guarded(id, "determinism re-run", || scn.run(p, false));
                                 acc.determinism_checks += 1;
                                 if r2.obs != r.obs {
                                     acc.machinery_errors.push(format!(
@@ -445,7 +461,7 @@ impl Check {
                 sample_paths.push(p);
             }
             for p in sample_paths {
-                let r = scn.run(&p, true);
+                let r = run_guarded(&self.id, "sample", || scn.run(&p, true));
                 self.samples.push(json!({
                     "scenario": scn.name(),
                     "path": p,
@@ -490,6 +506,7 @@ impl Check {
                 let stop = &stop;
                 let total_acc = &total_acc;
                 let name = &name;
+                let id = &id;
                 s.spawn(move || {
                     let mut acc = Acc::default();
                     loop {
@@ -499,16 +516,10 @@ impl Check {
                         }
                         for i in base..(base + BATCH).min(total) {
                             *slots[w].lock().unwrap() = Some((i, Instant::now()));
-                            let r = match std::panic::catch_unwind(std::panic::AssertUnwindSafe(|| space.run(i, false))) {
-                                Ok(r) => r,
-                                Err(_) => {
-                                    eprintln!("MACHINERY-ERROR: the engine panicked in case {} #{}", name, i);
-                                    std::process::exit(2);
-                                }
-                            };
+                            let r = run_guarded(id, &format!("case {} #{}", name, i), || space.run(i, false));
                             *slots[w].lock().unwrap() = None;
                             if i % 64 == 0 {
-                                let r2 = space.run(i, false);
+                                let r2 = run_guarded(id, "determinism re-run", || space.run(i, false));
                                 acc.determinism_checks += 1;
                                 if r2.obs != r.obs {
                                     acc.machinery_errors
@@ -567,7 +578,7 @@ impl Check {
         }
         if total > 0 && self.samples.len() < 6 {
             let i = total / 2;
-            let r = space.run(i, true);
+            let r = run_guarded(&self.id, "sample", || space.run(i, true));
             self.samples.push(json!({"space": name, "index": i, "transcript": r.transcript}));
         }
         self.scenarios.push(json!({
@@ -590,9 +601,9 @@ impl Check {
 
     fn handle_violation(&mut self, scn: &dyn Scenario, sname: &str, path: &[usize], sig: &(String, String)) {
         // minimise, then replay twice
-        let min = greedy_minimise(scn, path, sig);
-        let r1 = scn.run(&min, true);
-        let r2 = scn.run(&min, false);
+        let min = greedy_minimise(&self.id, scn, path, sig);
+        let r1 = run_guarded(&self.id, "replay", || scn.run(&min, true));
+        let r2 = run_guarded(&self.id, "replay", || scn.run(&min, false));
         let s1 = r1.violation.as_ref().map(|v| v.sig());
         let s2 = r2.violation.as_ref().map(|v| v.sig());
         if s1 != Some(sig.clone()) || s2 != Some(sig.clone()) || r1.obs != r2.obs {
@@ -630,8 +641,8 @@ impl Check {
     }
 
     fn handle_case_violation(&mut self, space: &dyn CaseSpace, index: usize, sig: &(String, String), detail: &str) {
-        let r1 = space.run(index, true);
-        let r2 = space.run(index, false);
+        let r1 = run_guarded(&self.id, "replay", || space.run(index, true));
+        let r2 = run_guarded(&self.id, "replay", || space.run(index, false));
         let s1 = r1.violation.as_ref().map(|v| v.sig());
         let s2 = r2.violation.as_ref().map(|v| v.sig());
         if s1 != Some(sig.clone()) || s2 != Some(sig.clone()) {
